@@ -11,7 +11,7 @@ PATHS_BY_DEPTH = {
     0: [()],
     1: [(), (0,), (1,)],
     2: [(), (0,), (1,), (0, 0), (0, 1)],
-    3: [(), (0,), (1,), (0, 0), (0, 1), (0, 0, 0)],
+    3: [(), (0,), (1,), (0, 0), (0, 1), (1, 0), (0, 0, 0), (0, 0, 1), (0, 1, 0)],
 }
 
 DEFAULT_PROFILE: Dict[str, Any] = {
@@ -73,6 +73,8 @@ def gen_scenario(seed: int, profile: Optional[dict] = None) -> dict:
         else:
             path = rng.choice([p for p in paths if p])
         ents = ["e0", "e1"] if rng.random() < prof["p_two_entities"] else ["e0"]
+        if len(ents) == 2 and rng.random() < 0.2:
+            ents.append("e2")
         n_in = rng.randint(1, 3)
         n_out = rng.randint(1, 3)
         ins: Dict[str, str] = {}
